@@ -189,3 +189,15 @@ func init() {
 	mutant("string-cut-own-error", "dec-short-input-signal", "hpack.go", "		return b, dst, ErrUnexpectedSize\n	}\n\n	mustDecode", "		return b, dst, errors.New(\"no bytes left\")\n	}\n\n	mustDecode")
 	mutant("peek-nil-unchecked", "dec-short-input-signal", "hpack.go", "		hf2 := hp.peek(n)\n		if hf2 == nil {\n			return b, NewError(FlowControlError, fmt.Sprintf(\"index field not found: %d. table:\\n%s\", n,\n				headerFieldsToString(hp.dynamic, maxIndex)))\n		}\n\n		hf2.CopyTo(hf)", "		hf2 := hp.peek(n)\n\n		hf2.CopyTo(hf)")
 }
+
+func init() {
+	mutant("handlerstop-not-deferred", "stop-channels-closed", "serverConn.go", "	defer close(sc.handlerStop)\n", "	defer func() {\n		if sc.debug {\n			close(sc.handlerStop)\n		}\n	}()\n")
+	mutant("trailer-block-resets-validation", "validator-state-monotone", "serverConn.go", "	if fr.Type() != FrameContinuation {\n		strm.blockFields = 0\n	}", "	if fr.Type() != FrameContinuation {\n		strm.blockFields = 0\n		strm.regularSeen = false\n	}")
+	mutant("writeloop-retryable-fallback", "retryable-pre-wire", "conn.go", "		lastErr = io.ErrUnexpectedEOF\n	}\n\n	c.setLastErr(lastErr)", "		lastErr = c.closeErr()\n	}\n\n	c.setLastErr(lastErr)")
+	mutant("refill-skipped-on-endstream", "recv-window-refill", "serverConn.go", "	if !fr.Flags().Has(FlagEndStream) {\n		sc.writeWindowUpdate(strm.ID(), n)\n	}\n\n	sc.currentWindow -= int32(n)", "	sc.currentWindow -= int32(n)\n\n	if fr.Flags().Has(FlagEndStream) {\n		return\n	}\n\n	sc.writeWindowUpdate(strm.ID(), n)\n")
+	mutant("client-framesize-value-guard", "settings-presence-guard", "conn.go", "	atomic.StoreUint32(&c.maxFrameSize, c.serverS.MaxFrameSize())", "	if size := c.serverS.MaxFrameSize(); size != defaultDataFrameSize {\n		atomic.StoreUint32(&c.maxFrameSize, size)\n	}")
+}
+
+func init() {
+	mutant("goaway-body-kept-after-release", "no-use-after-release", "conn.go", "				c.closeRef = ga.stream\n				c.state = connStateClosed\n			}\n\n			break loop\n		}", "				c.closeRef = ga.stream\n				c.state = connStateClosed\n\n				break loop\n			}\n		}")
+}
